@@ -17,7 +17,7 @@ for arg in sys.argv[1:]:
     meta = {"id": name, "breaks_property": name.split('-')[0], "written_by": "fresh sub-agent given only the property text and a scratch worktree",
             "what_and_needs_to_manifest": notes.strip(),
             "confirmed": {"how": "tools/confirm_mutant.sh in a scratch git worktree of /repo HEAD " + c['repo_head'] + ": patch applied (" + c['applied'] + "), demo.py exit 0 without / exit 1 with the change, unedited test suite with the change: " + c['tests_with']},
-            "detected_by": det.split(','),
+            "detected_by": [x for x in det.split(',') if x and x != 'NONE'],
             "ran": "tools/try_mutant.sh seeded/" + name + "/patch.diff <CHECK> quick  (scratch copy of /repo/synced_collections under /dev/shm with the patch applied, VERIF_REPO pointing at it; /repo itself untouched)"}
     json.dump(meta, open(f'{out}/meta.json', 'w'), indent=1)
     shutil.rmtree(d)
